@@ -69,6 +69,16 @@ func httpFile(kind string, e int) (string, []byte) {
 			fmt.Fprintf(&b, "%d tag%d\n%s\n", len(blk), i, blk)
 		}
 		return strings.TrimSuffix(kind, "-bigbody"), []byte(b.String())
+	case "jsonline-bigline":
+		// every second line is 70 KB long (maxammosize is raised in the provider config)
+		for i := 0; i < e; i++ {
+			pad := ""
+			if i%2 == 0 {
+				pad = strings.Repeat("0123456789", 7000)
+			}
+			fmt.Fprintf(&b, `{"method":"POST","uri":"/p%d?vid=%d","host":"h.example.org","tag":"tag%d","body":"%s"}`+"\n", i, i, i, pad)
+		}
+		return "http/json", []byte(b.String())
 	case "jsonline-lines":
 		for i := 0; i < e; i++ {
 			fmt.Fprintf(&b, `{"method":"GET","uri":"/p%d?vid=%d","host":"h.example.org","tag":"tag%d"}`+"\n", i, i, i)
@@ -121,20 +131,31 @@ func buildProvider(c Cell) (core.Provider, string, error) {
 	var conf map[string]any
 	var path string
 	switch c.Kind {
-	case "uri", "uripost", "raw", "jsonline-lines", "jsonline-array", "raw-bigbody", "uripost-bigbody":
+	case "uri", "uripost", "raw", "jsonline-lines", "jsonline-array", "raw-bigbody", "uripost-bigbody", "jsonline-bigline":
 		typ, data := httpFile(c.Kind, c.Entries)
 		path = vkit.WriteMem(data)
 		conf = map[string]any{"type": typ, "file": path}
+		if c.Kind == "jsonline-bigline" {
+			conf["maxammosize"] = 200000
+		}
 		if c.Preload {
 			conf["preload"] = true
 		}
-	case "grpc/json":
+	case "grpc/json", "grpc/json-bigline":
 		var b strings.Builder
 		for i := 0; i < c.Entries; i++ {
-			fmt.Fprintf(&b, `{"tag":"t%d","call":"target.TargetService.Hello","payload":{"hello":"v%d"}}`+"\n", i, i)
+			v := fmt.Sprintf("v%d", i)
+			if c.Kind == "grpc/json-bigline" && i%2 == 0 {
+				// a line of 70 KB: longer than a line scanner's default limit, allowed by maxammosize
+				v += strings.Repeat("0123456789", 7000)
+			}
+			fmt.Fprintf(&b, `{"tag":"t%d","call":"target.TargetService.Hello","payload":{"hello":"%s"}}`+"\n", i, v)
 		}
 		path = vkit.WriteMem([]byte(b.String()))
 		conf = map[string]any{"type": "grpc/json", "file": path}
+		if c.Kind == "grpc/json-bigline" {
+			conf["maxammosize"] = 200000
+		}
 	case "http/scenario", "grpc/scenario":
 		path = vkit.WriteMem(scenarioYAML(c.Kind == "grpc/scenario", c.Entries)) + ".yaml"
 		_ = vkit.Fs().Rename(strings.TrimSuffix(path, ".yaml"), path)
@@ -436,7 +457,7 @@ func runEngine(res *vkit.Result, c Cell, p core.Provider, exp int, watchdog time
 	return ""
 }
 
-var kinds = []string{"uri", "uripost", "raw", "jsonline-lines", "jsonline-array", "grpc/json", "http/scenario", "grpc/scenario", "json", "json-inline", "json-padded", "json-queue2", "raw-bigbody", "uripost-bigbody"}
+var kinds = []string{"uri", "uripost", "raw", "jsonline-lines", "jsonline-array", "grpc/json", "http/scenario", "grpc/scenario", "json", "json-inline", "json-padded", "json-queue2", "raw-bigbody", "uripost-bigbody", "grpc/json-bigline", "jsonline-bigline"}
 
 func cells(kind string) []Cell {
 	var out []Cell
